@@ -194,6 +194,64 @@ def lm(ctx):
                 out.append(Inst("LM", "%s:LM5:%s" % (name, f), ge == gl, enc.site(direct[0]["bb"]),
                                 "field %s is written under %s and counted under %s" % (f, sorted(ge) or "no flag", sorted(gl) or "no flag"),
                                 "a field is counted exactly when it is written (same flag predicates)"))
+        # LM-5b value-test agreement: if a field is written only when its value passes a test (e.g. `!= default`),
+        # its length contribution is subject to a value test too, and vice versa
+        def value_tested_emission(f, e):
+            for (d, s_) in enc.control_dep_closure(e["bb"]):
+                cnd = Cond(enc, d)
+                if cnd.kind == "cmp" and any((info["adt"], f) == (a[1], a[2]) for a in (enc.atoms(cnd.a) | enc.atoms(cnd.b)) if a[0] == "field"):
+                    return True
+                if cnd.kind == "call" and cnd.callee in ("eq",) and any((info["adt"], f) == (a[1], a[2]) for x in cnd.args for a in enc.atoms(x) if a[0] == "field"):
+                    return True
+                # the decision looks at the result of a helper that itself tests the field's value (e.g. remaining_len())
+                ops_ = [cnd.a, cnd.b] if cnd.kind == "cmp" else (getattr(cnd, "args", []) if cnd.kind == "call" else [])
+                for x in ops_:
+                    if x is None:
+                        continue
+                    for a in enc.atoms(x):
+                        if a[0] == "call" and a[1].startswith(info["adt"] + "::"):
+                            hb = info["helpers"].get(a[1].split("::")[-1])
+                            if hb is None:
+                                continue
+                            for j in sorted(hb.reach):
+                                c2 = Cond(hb, j)
+                                o2 = [c2.a, c2.b] if c2.kind == "cmp" else (c2.args if c2.kind == "call" and c2.callee == "eq" else [])
+                                if any((info["adt"], f) == (y[1], y[2]) for z in o2 if z is not None for y in hb.atoms(z) if y[0] == "field"):
+                                    return True
+            return False
+
+        def value_tested_length(f):
+            for hname, hb in info["helpers"].items():
+                if not hname.endswith("_len"):
+                    continue
+                own, _ = own_len_fields(ctx, info, hname)
+                if f not in own:
+                    continue
+                for i in sorted(hb.reach):
+                    cnd = Cond(hb, i)
+                    ops_ = [cnd.a, cnd.b] if cnd.kind == "cmp" else (cnd.args if cnd.kind == "call" and cnd.callee == "eq" else [])
+                    if any((info["adt"], f) == (a[1], a[2]) for x in ops_ if x is not None for a in hb.atoms(x) if a[0] == "field"):
+                        return True
+                    t = hb.term(i)
+                    if t["k"] == "call" and len(t["ops"]) >= 2 and f in self_fields(hb, hb.atoms(t["ops"][0]), info["adt"]):
+                        for a in hb.atoms(t["ops"][1]):
+                            if a[0] == "closure":
+                                cb = ctx.world.body(a[1])
+                                for j in sorted(cb.reach):
+                                    c2 = Cond(cb, j)
+                                    if c2.kind == "cmp" or (c2.kind == "call" and c2.callee == "eq"):
+                                        return True
+            return False
+        for f, es in sorted(emitted_fields.items()):
+            direct = [e for e in es if e["item"][0] == "field"]
+            if not direct or f not in rem_fields:
+                continue
+            ve = any(value_tested_emission(f, e) for e in direct)
+            vl = value_tested_length(f)
+            if ve or vl:
+                out.append(Inst("LM", "%s:LM5b:%s" % (name, f), ve == vl, enc.site(direct[0]["bb"]),
+                                "field %s: written %s, counted %s" % (f, "only if its value passes a test" if ve else "whatever its value", "only if its value passes a test" if vl else "whatever its value"),
+                                "the condition for writing a field and for counting it is the same"))
         # LM-6
         meas = measured_types(ctx, info)
         emit_t = {}
